@@ -1,0 +1,24 @@
+//go:build verif
+
+package dawn
+
+// VerifYield, when set by a verification harness, is called at named scheduling
+// points of the module loader and the cache. VerifCrash, when set, is called at
+// named points between persistent effects of a build. Both are nil (and the calls
+// are no-ops) otherwise.
+var (
+	VerifYield func(point, label string)
+	VerifCrash func(point, label string)
+)
+
+func verifYield(point, label string) {
+	if f := VerifYield; f != nil {
+		f(point, label)
+	}
+}
+
+func verifCrash(point, label string) {
+	if f := VerifCrash; f != nil {
+		f(point, label)
+	}
+}
